@@ -335,6 +335,47 @@ func (s *Sim) DeliverBlock(b *refchain.Block) {
 
 func (s *Sim) forceStored(b *refchain.Block) { s.Status[b] = SStored }
 
+// DeliverBlockFaulted offers a valid block that extends the tip while the database is armed to fail one read
+// (arm / disarm are supplied by the caller; disarm reports whether the failure fired). A transient failure must not be
+// reported as a rule violation, must not brand the block invalid, and delivering the block again afterwards must make
+// it the tip.
+func (s *Sim) DeliverBlockFaulted(b *refchain.Block, arm func(), disarm func() bool) {
+	if b.Parent != s.Tip || !b.ChainValid() || s.Status[b] != SUnknown {
+		return
+	}
+	s.op("blk-with-read-fault(%s)", b.Name)
+	for _, tx := range b.Msg.Transactions {
+		h := tx.TxHash()
+		for i := range tx.TxOut {
+			s.universe[wire.OutPoint{Hash: h, Index: uint32(i)}] = true
+		}
+	}
+	arm()
+	_, _, err := s.N.Chain.ProcessBlock(btcutil.NewBlock(b.Msg), blockchain.BFNone)
+	fired := disarm()
+	s.K.Count("op.ProcessBlock", 1)
+	if fired {
+		s.K.Count("fault.read_failure_fired", 1)
+		if err != nil && isRuleErr(err) {
+			s.Fail("fault:transient-failure-reported-as-rule-violation", "block %s: a failed database read surfaced as %v", b.Name, err)
+			return
+		}
+		if err != nil {
+			s.K.Count("fault.delivery_failed", 1)
+			_, _, err2 := s.N.Chain.ProcessBlock(btcutil.NewBlock(b.Msg), blockchain.BFNone)
+			if err2 != nil && !isRule(err2, blockchain.ErrDuplicateBlock) {
+				s.Fail("fault:redelivery-refused", "block %s is refused after a transient read failure during its first delivery: %v (first: %v)", b.Name, err2, err)
+				return
+			}
+		}
+	} else if err != nil {
+		s.Fail("process:valid-block-rejected", "valid block %s extending the tip was refused: %v", b.Name, err)
+		return
+	}
+	s.Status[b] = SStored
+	s.AfterOp("ProcessBlock(" + b.Name + ")")
+}
+
 // acceptWithParent handles delivery of a block whose parent is stored (directly or via the orphan cascade).
 func (s *Sim) acceptWithParent(b *refchain.Block, isMain, isOrphan bool, err error, direct bool) (cascadeRejected bool) {
 	rc := ruleClass(b)
